@@ -58,7 +58,9 @@ Section Resume.
       | O => None
       | S fuel' =>
         let m := (size - step)%nat in
-        let want := if (m <? Bn)%nat then m else Bn in
+        (* min(m, kPrefixHashStep): the comparison is made on binary numbers so that evaluating the
+           model does not build the block size (10 MiB) as a unary number for every small file *)
+        let want := if (N.of_nat m <? B)%N then m else Bn in
         let buf := firstn want (skipn step src) in          (* n, err := file.Read(buf) *)
         let step' := (step + length buf)%nat in
         let fed' := fed ++ buf in                            (* hasher.Write(buf[:n]) *)
